@@ -634,6 +634,70 @@ fn scramble(n: &mut Node, t: autosar_data_specification::ElementType, v: Autosar
     changed
 }
 
+/// Names that only a non-strict load can bring into a model (multi-byte characters, digits first, spaces): every sub-multiset
+/// of the pool as sibling packages in every order, loaded leniently and sorted. Sorting never fails and the result does not
+/// depend on the order in the file.
+fn sort_loaded_names(ctx: &Ctx, tier: Tier) -> u64 {
+    let pool = ["a", "ä1", "ä10", "Größe", "Maß2", "Maß10", "1a", "a b", "é", "a1é"];
+    let max = tier.pick(4usize, 5usize);
+    let n = AtomicU64::new(0);
+    // every subset of up to `max` names
+    let subsets: Vec<Vec<&str>> = (1u32..(1 << pool.len())).filter(|m| m.count_ones() as usize <= max && m.count_ones() >= 2).map(|m| (0..pool.len()).filter(|i| m & (1 << i) != 0).map(|i| pool[i]).collect()).collect();
+    subsets.par_iter().for_each(|names| {
+        // every order of the subset
+        fn perms(v: &[&str]) -> Vec<Vec<String>> {
+            if v.len() <= 1 {
+                return vec![v.iter().map(|s| s.to_string()).collect()];
+            }
+            let mut out = vec![];
+            for i in 0..v.len() {
+                let mut rest = v.to_vec();
+                let x = rest.remove(i);
+                for mut p in perms(&rest) {
+                    p.insert(0, x.to_string());
+                    out.push(p);
+                }
+            }
+            out
+        }
+        let mut results: BTreeMap<String, Vec<String>> = BTreeMap::new();
+        for order in perms(names) {
+            n.fetch_add(1, Ordering::Relaxed);
+            let body: String = order.iter().map(|nm| format!("<AR-PACKAGE><SHORT-NAME>{nm}</SHORT-NAME></AR-PACKAGE>")).collect();
+            let text = format!("<?xml version=\"1.0\" encoding=\"utf-8\"?>\n<AUTOSAR {}><AR-PACKAGES>{body}</AR-PACKAGES></AUTOSAR>", header_attrs(AutosarVersion::Autosar_00050));
+            let w = || json!({"kind": "sort-loaded-names", "names_in_file_order": order, "text": text});
+            let m = AutosarModel::new();
+            if m.load_buffer(text.as_bytes(), "x.arxml", false).is_err() {
+                ctx.count("loaded_name_documents_not_accepted", 1);
+                continue;
+            }
+            let before = walk(&m).len();
+            match guarded(|| m.sort()) {
+                Err(msg) => {
+                    ctx.violation(format!("loaded-names|panic|sort|{}", last_panic_loc()), json!({"w": w(), "msg": msg}));
+                    continue;
+                }
+                Ok(()) => {}
+            }
+            if walk(&m).len() != before {
+                ctx.violation("loaded-names|elements-lost-or-gained", w());
+            }
+            let sorted: Vec<String> = m.root_element().get_sub_element(ElementName::ArPackages).map(|p| p.sub_elements().filter_map(|e| e.item_name()).collect()).unwrap_or_default();
+            let t1 = m.files().next().and_then(|f| f.serialize().ok());
+            let _ = guarded(|| m.sort());
+            if m.files().next().and_then(|f| f.serialize().ok()) != t1 {
+                ctx.violation("loaded-names|second-sort-changes-the-result", w());
+            }
+            results.entry(sorted.join(" < ")).or_default().push(order.join(","));
+        }
+        if results.len() > 1 {
+            ctx.violation("loaded-names|result-depends-on-previous-order", json!({"kind": "sort-loaded-names", "names": names, "results": results.keys().collect::<Vec<_>>()}));
+        }
+    });
+    ctx.count("loaded_name_documents_sorted", n.load(Ordering::Relaxed));
+    n.load(Ordering::Relaxed)
+}
+
 pub fn sort_full_documents(ctx: &Ctx, tier: Tier) -> u64 {
     use crate::common::docgen::DocGen;
     use crate::common::specgraph::VERSIONS;
@@ -809,7 +873,7 @@ pub fn run(tier: Tier) -> i32 {
     }
     let n = perms_run.load(Ordering::Relaxed);
     let cmp_evals = comparator_axioms(&ctx, tier);
-    let full_evals = sort_full_documents(&ctx, tier);
+    let full_evals = sort_full_documents(&ctx, tier) + sort_loaded_names(&ctx, tier);
     ctx.eval(n + cmp_evals + full_evals);
     ctx.count("multisets", sets_run.load(Ordering::Relaxed));
     ctx.count("permutations", n);
